@@ -309,4 +309,13 @@ func init() {
 			{Name: "stress", Pkg: "c10", Run: "^TestC10Stress$", Race: true, QuickShards: 4, ThoroughShards: 8, CaseFile: true, CrashOracle: "no-crash", Inject: actorOverlay, QuickTimeout: 15 * time.Minute, ThoroughTimeout: 60 * time.Minute},
 		},
 	}
+
+	registry["C11"] = &Check{
+		Rule: "two real systems on loopback TCP (fresh per case, real clock) with the generator's byte-level proxy between sender and receiver: 1-4 concurrent senders x bursts of 1-600 (2000 in thorough) messages with body sizes from {0,1,2,100,1000,4090,4094..4097,5000,65535,70000, 1 MiB, 4 MiB-1000, 4 MiB-400 (the envelope adds up to ~140 bytes)}, every k-th message an Ask (reply must come back), optionally a burst in the other direction; the proxy re-chunks the sender's byte stream by a drawn plan: frame-exact, 1-byte writes, 2-50 frames coalesced into one write, every frame split at a drawn offset 1-12, fixed chunks of 1-4096 bytes; plus fixed regression shapes incl. a connection that has been idle for 10.6 s. Loss is decided without a timeout oracle: after the burst, fence messages are sent one at a time on the idle link; once one is processed everything before it has been consumed (TCP order); if none arrives and the receiver reported nothing, the case is inconclusive (not counted). Oracle: per sender exactly 0..n-1 in order, byte-identical; every Ask got the reply to its own request; the sender reference seen by the receiver is the sending system; no RemotingMessageDecodeFailedEvent; an idle connection is not torn down by the library. Non-trivial = the proxy made at least one write that ended inside a frame or contained a frame boundary. Distinct = hash of the case.",
+		Assumptions: []string{"read boundaries at the receiver are influenced by the proxy's writes (with pauses), not dictated; the oracle does not depend on them", "real-time waits are patience only: a fence that never arrives without any receiver-side event makes the case inconclusive"},
+		Serial: true,
+		Units: []Unit{
+			{Name: "link", Pkg: "c11", Run: "^(TestC11HealthyLink|TestC11Regressions)$", QuickChecks: 25, ThoroughChecks: 400, ThoroughShards: 4, CaseFile: true, CrashOracle: "no-crash", QuickTimeout: 15 * time.Minute, ThoroughTimeout: 90 * time.Minute},
+		},
+	}
 }
